@@ -95,6 +95,7 @@ func inRanges(p uint16, rs []oracle.PortRange) bool {
 
 // c03peer builds the reaction to one probe.
 type c03peer struct {
+	bgFrames int // reply-flagged frames from a port outside every scanned range, sent all through a chunked scan
 	jumbo int // ICMP answers longer than the capture length
 	s      *c03spec
 	rng    *rand.Rand
@@ -389,8 +390,8 @@ func c03cases(run *vlab.Run) []*c03spec {
 		base := (0x0a090000 | rng.Uint32()&0xff00) &^ (1<<uint(32-bits) - 1)
 		s.Subnet = fmt.Sprintf("%s/%d", ipS(base), bits)
 		if portful {
-			s.NRanges = []int{1, 2, 5, 201, 401}[rng.Intn(5)]
-			if s.NRanges > 200 {
+			s.NRanges = []int{1, 2, 5, 201, 401, 200, 400}[rng.Intn(7)]
+			if s.NRanges >= 200 {
 				bits = 30 + rng.Intn(3)
 				base &^= 1<<uint(32-bits) - 1
 				s.Subnet = fmt.Sprintf("%s/%d", ipS(base), bits)
@@ -474,12 +475,47 @@ func scenC03(run *vlab.Run, sx, tmp string) {
 						c.Inject(d, in.frame)
 					}
 				}}
+			stopBg := make(chan struct{})
+			if s.Kind == "tcp" && s.NRanges >= 200 && peer.subnet != nil && peer.ports != nil {
+				// chunked scans: from start to exit a host of the subnet keeps sending reply-flagged segments from a
+				// port that is in none of the scanned ranges - whatever chunk (or gap between chunks) is current,
+				// they are not replies
+				bgRng := rand.New(rand.NewSource(s.Seed + 77))
+				var op uint16
+				for try := 0; try < 1000; try++ {
+					op = uint16(1 + bgRng.Intn(65535))
+					if !inRanges(op, peer.ports) {
+						break
+					}
+				}
+				bgSrc := oracle.U32ToIP(peer.subnet.Base + uint32(bgRng.Intn(int(peer.subnet.Size()))))
+				spec.OnStart = func(c *CaseRun) {
+					d := c.World.Dev(dev)
+					for {
+						select {
+						case <-stopBg:
+							return
+						case <-time.After(4 * time.Millisecond):
+						}
+						peer.mu.Lock()
+						fr := peer.tcpFrame(bgSrc, op, 40000, oracle.FlagSYN|oracle.FlagACK)
+						peer.bgFrames++
+						peer.mu.Unlock()
+						func() {
+							defer func() { recover() }()
+							c.Inject(d, fr)
+						}()
+					}
+				}
+			}
 			res := RunCase(sx, spec)
+			close(stopBg)
 			run.Eval(1)
 			desc := map[string]interface{}{"spec": s, "argv": strings.Join(args, " ")}
 			if !baseChecks(run, res, desc, true) {
 				break
 			}
+			run.Count("c03_background_frames_from_unscanned_port", int64(peer.bgFrames))
 			// expected records
 			exp := map[string]int{}
 			classOf := map[string]string{}
@@ -555,7 +591,7 @@ func scenC03(run *vlab.Run, sx, tmp string) {
 				run.Count("class:"+c, int64(n))
 			}
 			run.Count("icmp_answers_longer_than_capture_length", int64(peer.jumbo))
-			if s.NRanges > 200 {
+			if s.NRanges >= 200 {
 				run.Count("c03_chunked_runs", 1)
 			}
 			if s.Mode != "subnet" {
